@@ -157,7 +157,11 @@ func cmdCheck(args []string) int {
 		} else if *tier == "quick" {
 			cfg.Deadline = time.Now().Add(8 * time.Minute)
 		} else {
-			cfg.Deadline = time.Now().Add(20 * time.Minute)
+			mins := 15
+			if v, err := strconv.Atoi(os.Getenv("KSE_THOROUGH_MINUTES")); err == nil && v > 0 {
+				mins = v
+			}
+			cfg.Deadline = time.Now().Add(time.Duration(mins) * time.Minute)
 		}
 		w.coverMu.Lock()
 		w.coverDone = nil
